@@ -168,6 +168,29 @@ def run(run, thorough):
                             run.fail('oracle', 'the path was re-created by somebody else right after the move: trash-put left the payload under files/ '
                                      'without a complete .trashinfo', {'scenario': fs[k - 1], 'trash_dir': td, 'name': esc(name), 'after_mutation': k},
                                      key='payload-without-info', section='recreated-source')
+    # directed: close(2) of the .trashinfo reports a deferred write error (EIO / ENOSPC / EDQUOT as on NFS or under a quota) and what had
+    # been written is not there: that info file is no record of anything - no payload may be moved in beside it (oracle only: the world
+    # model knows no lossy close)
+    lossy = []
+    for er in (5, 28, 122):
+        for argv_td in ([], ['--trash-dir', '/home/u/mytd']):
+            lay = scen.Layout(_random_mod.Random(13), home_on_own_volume=False, nvols=1, nested=False, xdg='unset', uid=0)
+            src = lay.home + '/notes.txt'
+            s2 = lay.scenario([{'cmd': 'put', 'argv': argv_td + ['--', src], 'now': [2024, 5, 6, 7, 8, 9, 0],
+                                'plan': {'faults': {'close': {'errno': er, 'lossy': True}}}}], cwd='/', extra=[['f', src, 'my notes']] + scen.canary())
+            lossy.append(s2)
+    for s2, r in zip(lossy, sandbox.execute_many(lossy)):
+        if not r.get('steps'):
+            continue
+        run.count('lossy-close')
+        snap = r['steps'][0]['after']
+        for td in engine.trash_dirs_in(snap):
+            for name, e in engine.entries_of(snap, td).items():
+                if e['payload'] is not None and not engine.info_parseable(e['info']):
+                    run.fail('oracle', 'close() of the .trashinfo failed and its content was lost, yet trash-put moved the payload in beside it: '
+                             'a payload under files/ without a complete .trashinfo', {'scenario': s2, 'trash_dir': td, 'name': esc(name), 'exit': r['steps'][0]['exit']},
+                             key='payload-without-info', section='lossy-close')
+        run.nontriv(('lossy-close', r['steps'][0]['exit'], len(s2['steps'][0]['argv'])))
     # directed: a mount point, named absolutely and relative to the working directory.  rename(2) of a mount point is EBUSY, so a
     # trash-put that does not refuse it degrades to copy + delete of its contents; complete run and every crash point are judged
     for spelled in ['vol1', './vol1', 'vol1/', '/vol1', '/vol1/', '../vol1']:
